@@ -19,6 +19,7 @@ def universes(tier):
         us.append(("Rxn(A01[:8],2)", quick, {"threshold": 0}, 22))
         us.append(("hand+special t=0", special, {"threshold": 0}, 6))
         us.append(("size ladder", large, {"threshold": 0}, 3))
+        us.append(("residual imbalance single rows", pf.dedupe(pf.RESIDUAL), {"threshold": 0}, 1))
         us.append(("hand+special t=0.5 bs=3", special, {"threshold": 0.5, "batch_size": 3}, 7))
         us.append(("hand+special t=1 bs=1", special, {"threshold": 1, "batch_size": 1}, 5))
     else:
